@@ -49,10 +49,19 @@ def c05_1(ctx, ss):
     gf = grammar_facts(ss, G)
     # Define
     ff, flow = fn(ss, DEC, "get_definitions")
-    rets = [r for r in returns(ff) if isinstance(r.value, ast.DictComp)]
+    def _dc(r):
+        if isinstance(r.value, ast.DictComp):
+            return r.value
+        if isinstance(r.value, ast.Name):            # the table may be built under a local name first
+            from .common import single_def
+            d_ = single_def(flow, r.value)
+            if d_ is not None and d_.kind == "assign" and d_.path == () and isinstance(d_.value, ast.DictComp):
+                return d_.value
+        return None
+    rets = [r for r in returns(ff) if r.value is not None and _dc(r) is not None]
     k = ckey(ff, None, "last-wins")
     if rets:
-        g = rets[0].value.generators
+        g = _dc(rets[0]).generators
         ok = len(g) == 1 and not g[0].ifs and _direct_find_data(flow.expand(g[0].iter), "define")
         (ctx.holds if ok else ctx.violation)("C05.1", k, where(ff, rets[0]),
                                               "Define table: dict comprehension directly over find_data('define') (document order, last wins)" if ok
